@@ -178,7 +178,14 @@ func oracle(stream, in, outp string) {
 						fmt.Sprintf("port %d client-sends-mtls %v effective %s namespace-level %s", p, composed, eff, nsLevel))
 				}
 			}
-		case "il", "ils":
+		case "cl":
+			res := s.apply(f)
+			if res == "crash" || res == "bad-op" {
+				fail("never-crashes", "crash", strings.Join(f, " "))
+				continue
+			}
+			s.clientE2EOracle(f, res, fail)
+		case "il", "ils", "ilh":
 			res := s.apply(f)
 			if res == "crash" || res == "bad-op" || res == "no-virtual-inbound" {
 				fail("never-crashes", "crash", strings.Join(f, " ")+" -> "+res)
